@@ -1265,7 +1265,19 @@ impl Sim for C13 {
     if rng.chance(1, 3) {
       let subject = *rng.pick(&["s", "Customer", "names[2]", "p.name", "upper case(s)"]);
       let pattern = *rng.pick(&["A", "[A-Z]+", "T|L", "a", "E.", "^B", "(?i)a"]);
-      let (x, y) = match rng.index(9) {
+      let (x, y) = match rng.index(12) {
+        // a pattern with a flag next to the pattern that ENDS in the flag letter and has no flag: whatever is keyed by
+        // the two texts put together cannot tell them apart
+        9 | 10 => {
+          let f = *rng.pick(&["i", "s"]);
+          let p = *rng.pick(&["^b", "a", "T|L"]);
+          (format!("matches({}, \"{}\", \"{}\")", subject, p, f), format!("matches({}, \"{}{}\")", subject, p, f))
+        }
+        11 => {
+          let f = *rng.pick(&["i", "s"]);
+          let p = *rng.pick(&["^b", "a", "T|L"]);
+          (format!("replace({}, \"{}\", \"-\", \"{}\")", subject, p, f), format!("replace({}, \"{}{}\", \"-\")", subject, p, f))
+        }
         0 => (format!("matches({}, \"{}\")", subject, pattern), format!("matches({}, \"{}\", \"i\")", subject, pattern)),
         1 => (format!("replace({}, \"{}\", \"-\")", subject, pattern), format!("replace({}, \"{}\", \"-\", \"i\")", subject, pattern)),
         2 => (format!("matches({}, \"{}\", \"i\")", subject, pattern), format!("matches({}, \"{}\", \"x\")", subject, pattern)),
@@ -1277,9 +1289,14 @@ impl Sim for C13 {
         _ => ("sublist(xs, 2)".to_string(), "sublist(xs, 2, 1)".to_string()),
       };
       let home = rng.index(n_scopes);
-      exprs.push(json!({"text": x, "clock_bound": false, "home": home}));
-      exprs.push(json!({"text": y, "clock_bound": false, "home": home}));
-      n_exprs += 2;
+      // in either order, sometimes one of the two only: which of them a process meets first varies from run to run
+      let (x, y) = if rng.chance(1, 2) { (y, x) } else { (x, y) };
+      exprs.push(json!({"text": x, "clock_bound": false, "home": home, "sib": true}));
+      n_exprs += 1;
+      if rng.chance(3, 4) {
+        exprs.push(json!({"text": y, "clock_bound": false, "home": home, "sib": true}));
+        n_exprs += 1;
+      }
     }
     // times of day without a zone (or all with explicit offsets) compared, subtracted and tested against ranges: one
     // history in three has such an expression; it is clock-free, so every evaluation - whatever the simulated date and
@@ -1393,6 +1410,9 @@ impl Sim for C13 {
   fn real_stub(&self) -> Value {
     json!({"real": ["dmntk-feel-parser", "dmntk-feel-evaluator", "dmntk-feel (Scope, contexts, values)", "dmntk-recognizer + decision table evaluator", "dmntk-model-evaluator", "process time zone (TZ per block of runs)"], "stub": ["wall clock date (hook H4)"], "scheduler": "none"})
   }
+  fn extra_pass(&self, tier: Tier, seed: u64) -> Option<ExtraPass> {
+    Some(pristine_pass(self, tier, seed))
+  }
   fn expected_probes(&self) -> Vec<&'static str> {
     vec![
       "eval.repeated_and_compared",
@@ -1408,4 +1428,85 @@ impl Sim for C13 {
       "fault.handover_to_other_thread",
     ]
   }
+}
+
+
+/// *Pristine-process pass.* The oracles above compare the code with itself inside ONE process; state that the process
+/// keeps between runs and that the first user decides for good (a never evicted cache, say) gives them the same value
+/// every time. Here a sample of runs is executed twice in fresh processes - once behind the (up to 60) runs that
+/// precede it in its block, once alone - and the event logs (every value every operation returned) must be equal:
+/// what a history returns does not depend on what the process evaluated before it.
+fn pristine_pass(sim: &C13, tier: Tier, seed: u64) -> ExtraPass {
+  let mut pass = ExtraPass { name: "pristine-process".to_string(), ..Default::default() };
+  let samples: u64 = match tier {
+    Tier::Quick => 320,
+    Tier::Thorough => 3200,
+  };
+  let runs = sim.runs(tier);
+  let block = sim.block(tier).max(1);
+  let results: std::sync::Mutex<Vec<(u64, u64, Outcome, Outcome, Value)>> = std::sync::Mutex::new(vec![]);
+  let next = std::sync::atomic::AtomicU64::new(0);
+  let workers = std::env::var("VERIF_JOBS").ok().and_then(|v| v.parse::<usize>().ok()).unwrap_or(8).clamp(1, 16);
+  std::thread::scope(|scope| {
+    for _ in 0..workers {
+      scope.spawn(|| loop {
+        let k = next.fetch_add(1, std::sync::atomic::Ordering::Relaxed);
+        if k >= samples {
+          break;
+        }
+        // the sample is drawn among the runs that hold a sibling pair (expressions that differ in one argument
+        // only): what a process keeps per expression text or per argument is shared by such runs
+        let mut pick: Option<(u64, Value)> = None;
+        for attempt in 0..40u64 {
+          let run = derive(seed, "C13-pristine", k * 64 + attempt) % runs;
+          let plan = sim.gen_plan(seed, run, tier);
+          if parr(&plan, "exprs").iter().any(|e| pbool(e, "sib")) {
+            pick = Some((run, plan));
+            break;
+          }
+        }
+        let (run, plan) = match pick {
+          Some(p) => p,
+          None => continue,
+        };
+        let from = ((run / block) * block).max(run.saturating_sub(60));
+        if from == run {
+          continue;
+        }
+        let tz = sim.tz_of_block(run / block);
+        let alone = json!({"property": "C13", "tier": tier.name(), "seed": seed, "run": run, "tz": tz, "plan": plan, "schedule": null});
+        let mut behind = alone.clone();
+        behind["prefix"] = json!({"from": from, "why": "pristine-process pass: the runs of the block before this one are executed first"});
+        let a = crate::driver::exec_isolated(sim, &alone, "replay", 0, tz);
+        let b = crate::driver::exec_isolated(sim, &behind, "replay", 0, tz);
+        results.lock().unwrap_or_else(|e| e.into_inner()).push((run, from, a, b, behind));
+      });
+    }
+  });
+  let mut results = results.into_inner().unwrap_or_else(|e| e.into_inner());
+  results.sort_by_key(|r| r.0);
+  for (run, from, a, b, mut doc) in results {
+    pass.counters.inc("pristine.runs_compared");
+    pass.counters.add("pristine.predecessors_executed", run - from);
+    if a.harness_error.is_some() || b.harness_error.is_some() || a.violation.is_some() || b.violation.is_some() {
+      // a run that violates by itself is the batch's business; trouble of the harness is not a verdict
+      pass.counters.inc("pristine.skipped");
+      continue;
+    }
+    if a.log_hash != b.log_hash {
+      let first_difference = a.log_tail.iter().zip(b.log_tail.iter()).find(|(x, y)| x != y).map(|(x, y)| format!("alone: {} | behind its predecessors: {}", x, y)).unwrap_or_else(|| "the logs differ before their last lines".to_string());
+      let v = Violation::new(
+        "depends-on-earlier-runs",
+        "C13:depends-on-earlier-runs:value-differs-from-pristine-process".to_string(),
+        0,
+        format!("run {} returns the same values alone in a fresh process and behind the runs {}..{} of its block", run, from, run),
+        first_difference,
+      );
+      doc["violation"] = v.to_json();
+      doc["pristine_log_hash"] = json!(a.log_hash);
+      pass.violations.push((doc, v));
+    }
+  }
+  pass.note = "a sample of runs executed alone in a fresh process and behind their predecessors in the block: equal event logs".to_string();
+  pass
 }
